@@ -404,3 +404,59 @@ Print Assumptions frag_compile_front_half.
 Theorem frag_compile_correct_thm : frag_compile_correct.
 Proof. exact (FragGlue.frag_glue CompFacts.front_half_lemma). Qed.
 Print Assumptions frag_compile_correct_thm.
+
+(* ---------------------------------------------------------------------------------------------
+   CC, the larger fragment F1 (coq/CC/Frag1Sem.v in_frag1) = F0 plus
+     local x1, ..., xn [= e1, ..., em]   (fewer expressions: nil padding; more: still evaluated)
+     x1, ..., xn = e1, ..., em           (every xi a local in scope; all right-hand sides are
+                                          evaluated before any store; stores last target first)
+   with the expressions of F0. Same end-to-end statement, proved from the same back half, a front
+   half on F1 (coq/CC/Frag1Facts.v: compileRegAssignment with its LOADNIL range and extra
+   expressions, compileAssignStmt's temporaries and its MOVE loop) and a reference half on F1
+   (coq/CC/Frag1Eval.v). *)
+From GL Require Import CC.Frag1Sem.
+From GL Require CC.Frag1Facts CC.Frag1Eval CC.Frag1Glue.
+
+Definition frag1_compile_correct : Prop :=
+  forall b p, in_frag1 b = true -> compile_frag b = Some p ->
+  exists n, forall fuel, (n <= fuel)%nat ->
+    is_skip (outcome_of (Run.run_program fuel no_devs b)) = false ->
+    outcome_of_vfin (run_proto fuel p) = outcome_of (Run.run_program fuel no_devs b).
+
+(* F1 contains F0 *)
+Theorem frag0_in_frag1 : forall b, in_frag b = true -> in_frag1 b = true.
+Proof. exact Frag1Facts.frag0_in_frag1. Qed.
+Print Assumptions frag0_in_frag1.
+
+(* front half on F1: chunks, then the whole program from the empty state *)
+Theorem frag1_chunk_correct : forall b locals s u s',
+  stmts_frag1 locals b = true -> CompFacts.cinv s locals -> compileChunk b s = Some (u, s') ->
+  len (cs_consts s') <= 262144 /\ CompFacts.prefix_of (cs_consts s) (cs_consts s') /\
+  exists seg, cs_code s' = seg ++ cs_code s /\ Forall CompFacts.u32 seg /\
+    forall K, CompFacts.prefix_of (cs_consts s') K -> forall rho rf fin,
+      CompFacts.env_rel rho locals rf -> CompFacts.rf_simple rf ->
+      isem_code K (rev seg ++ [CompFacts.final_ret fin]) rf = prun1 rho b.
+Proof. exact Frag1Facts.chunk1_ok. Qed.
+Print Assumptions frag1_chunk_correct.
+
+Theorem frag1_compile_front_half : Frag1Glue.front_half1.
+Proof. exact Frag1Facts.front_half1_lemma. Qed.
+Print Assumptions frag1_compile_front_half.
+
+(* reference half on F1: the reference evaluator is prun1, for every deviation-switch record and
+   every fuel above frag_fuel b *)
+Theorem frag1_reference_run : forall b fuel d, in_frag1 b = true -> (FragEvalFacts.frag_fuel b <= fuel)%nat ->
+  match prun1 [] b with
+  | CRet vs => exists s', Run.run_program fuel d b = Run.FinOk vs s' /\ trace s' = [] /\ forallb is_simple vs = true
+  | CFault ln => exists s', Run.run_program fuel d b = Run.FinErr (VFault 2 ln) s' /\ trace s' = []
+  | CUnsup => Run.run_program fuel d b = Run.FinUnsup 1
+  | CStuck => False
+  end.
+Proof. exact Frag1Eval.frag1_run_lemma. Qed.
+Print Assumptions frag1_reference_run.
+
+(* THE theorem on F1: the prototype the transcribed compiler produces for a program of F1, run by
+   the VM model, has the observable outcome of the reference evaluator on the source program. *)
+Theorem frag1_compile_correct_thm : frag1_compile_correct.
+Proof. exact Frag1Glue.frag1_compile_correct_lemma. Qed.
+Print Assumptions frag1_compile_correct_thm.
